@@ -1,5 +1,6 @@
 import KDVerif.Driver.J
 import KDVerif.Model.ModeWrapper
+import KDVerif.Model.C01Spec
 open Lean KDVerif.J
 
 namespace KDVerif.ModeWrapper.Driver
@@ -46,29 +47,20 @@ partial def outJson : Out → Json
     if js.any (fun j => j == Json.str "KeyError") then Json.str "KeyError" else Json.arr js.toArray
   | .indexError => Json.str "IndexError"
 
-/-- index forms: int | {"s":[start,stop,step]} | [forms…] -/
-partial def getForm (s : Stack) (mw : MW) (c : Nat) (f : Json) : Except String (Out × Nat) := do
+/-- index forms: int | {"s":[start,stop,step]} | [forms…]  →  the model-level `Form` (the dispatch itself is
+    `KDVerif.ModeWrapper.getForm` in `Model/C01Spec.lean`, the function the C01 theorems speak about) -/
+partial def parseForm (f : Json) : Except String Form := do
   match f with
   | .arr a =>
-    let mut outs : List Out := []
-    let mut cc := c
+    let mut fs : List Form := []
     for e in a.toList do
-      let r ← getForm s mw cc e
-      outs := outs ++ [r.1]
-      cc := r.2
-    pure (.list outs, cc)
+      fs := fs ++ [← parseForm e]
+    pure (.list fs)
   | .obj _ =>
     let sl ← arr f "s"
     if sl.size != 3 then throw "slice: 3 fields"
-    let start ← asOptInt sl[0]!
-    let stop ← asOptInt sl[1]!
-    let step := (← asOptInt sl[2]!).getD 1
-    let idxs := sliceRange s.len start stop step
-    let r := getMany s mw c idxs
-    pure (.list r.1, r.2)
-  | _ =>
-    let i ← f.getInt?
-    pure (getOne s mw c i)
+    pure (.slice (← asOptInt sl[0]!) (← asOptInt sl[1]!) (← asOptInt sl[2]!))
+  | _ => pure (.int (← f.getInt?))
 
 def entryJson : Entry → Json
   | .single item pos => Json.mkObj [("name", Json.str item), ("idxs", ofNat pos)]
@@ -89,11 +81,14 @@ def handle (op : String) (j : Json) : Except String Json :=
       let mut outs : List Json := []
       let mut c := 0
       for f in forms.toList do
-        let r ← getForm s mw c f
+        let r := getForm s mw c (← parseForm f)
         outs := outs ++ [outJson r.1]
         c := r.2
+      -- `list(iter(mw))` after the forms (the loader-call counter keeps running) and `len(mw)`
+      let it := iterAll s mw c
       pure (Json.mkObj [("ctor", "ok"), ("plan", Json.arr (mw.entries.map entryJson).toArray),
-        ("propagate", Json.bool mw.propagateCtx), ("outs", Json.arr outs.toArray), ("len", ofNat s.len)])
+        ("propagate", Json.bool mw.propagateCtx), ("outs", Json.arr outs.toArray), ("len", ofNat (lenOf s mw)),
+        ("iter", outJson (Out.list it.1))])
   | "mw.static" => do
     let mode ← str j "mode"
     let item ← str j "item"
